@@ -93,7 +93,13 @@ pub fn display_inner(ast: &DeriveInput) -> syn::Result<TokenStream> {
 
         let arm = match variant.fields {
             Fields::Named(ref field_names) => {
-                let used_vars = capture_format_string_idents(&output)?;
+                let mut used_vars = capture_format_string_idents(&output)?;
+                // Fields named as width or precision (`{value:>width$}`) are arguments as well
+                used_vars.extend(
+                    capture_format_spec_args(&output)
+                        .iter()
+                        .filter_map(|arg| syn::parse_str::<Ident>(arg).ok()),
+                );
                 if used_vars.is_empty() {
                     quote! { #name::#ident #params => ::core::fmt::Display::fmt(#output, #f) }
                 } else {
@@ -187,6 +193,36 @@ fn capture_format_string_idents(string_literal: &LitStr) -> syn::Result<Vec<Iden
             })
         })
         .collect()
+}
+
+/// Names used as `name$` width or precision arguments inside the format specs.
+fn capture_format_spec_args(string_literal: &LitStr) -> Vec<String> {
+    let format_str = string_literal.value().replace("{{", "").replace("}}", "");
+    let mut args = Vec::new();
+
+    for piece in format_str.split('{').skip(1) {
+        let inside_brackets = piece.split('}').next().unwrap_or("");
+        let spec = match inside_brackets.split_once(':') {
+            Some((_, spec)) => spec,
+            None => continue,
+        };
+
+        for (end, _) in spec.match_indices('$') {
+            let start = spec[..end]
+                .char_indices()
+                .rev()
+                .take_while(|(_, chr)| chr.is_alphanumeric() || *chr == '_')
+                .last()
+                .map_or(end, |(index, _)| index);
+            // A leading digit is the `0` flag, all digits are a positional argument
+            let arg = spec[start..end].trim_start_matches(|chr: char| chr.is_ascii_digit());
+            if !arg.is_empty() {
+                args.push(arg.to_owned());
+            }
+        }
+    }
+
+    args
 }
 
 fn capture_format_strings(string_literal: &LitStr) -> syn::Result<Vec<String>> {
